@@ -136,8 +136,26 @@ def run_enum(cfg, mon):
     mon.counters.inc("enum_names", mon.distinct_count)
 
 
+def sibling_names(root):
+    """absolute names built from the root itself: siblings whose name merely starts with the root's name"""
+    R = os.path.abspath(root.replace("\\", "/"))
+    base = os.path.basename(R) or "x"
+    out = []
+    for suffix in ("x", "-private/secret.txt", ".bak", ".bak/f", "_old/a/b", "2", " ", "%20", "\x00", "/", "//a", "/a", "/../" + base + "x/f", "x/../" + base):
+        for form in (R + suffix, "/" + R + suffix, R.replace("/", "\\") + suffix, "\\" + R[1:] + suffix, R.upper() + suffix):
+            out.append(form)
+    parent = os.path.dirname(R)
+    out += [parent, parent + "/", parent + "/" + base + "x", os.path.join(parent, base[:-1]) if len(base) > 1 else parent, R[:-1], R + R]
+    return out
+
+
 def run_random(cfg, mon):
     r = rng("C17", cfg["seed"], cfg["shard"])
+    for root in ROOTS:
+        for name in sibling_names(root):
+            mon.check(root, name, "sibling-prefix")
+            mon.counters.inc("sibling_prefix_names")
+            mon.distinct.add(h64(root, name))
     pieces = ["..", ".", "/", "\\", "//", "a", "etc", "passwd", "%2e%2e", "%2f", "\x00", " ", "~", "C:", "…", "\u2215", "\uff0f",
               "\u2024\u2024", "é", "\u202e", "..\\", "../", "/..", "....//", "\t", "\n", "*", "?", ":", "|"]
     for i in range(cfg["n"]):
@@ -219,7 +237,7 @@ def run_shard(cfg):
 def finish(tier, seed, results):
     m = merge(results)
     inconclusive = []
-    need(m["counters"], ["calls", "refused", "returned_inside", "enum_names", "router_names", "valid_names_returned"], inconclusive)
+    need(m["counters"], ["calls", "refused", "returned_inside", "enum_names", "router_names", "valid_names_returned", "sibling_prefix_names"], inconclusive)
     cov = {
         "evaluations": m["evaluations"],
         "distinct_nontrivial": m["distinct_nontrivial"],
